@@ -108,6 +108,9 @@ def holdsC20_fn (declText defText : Str) (scope : Option Str) (initialised : Boo
      | some ds =>
        let want := ds.map fun o => match o with | some v => if v.isEmpty then none else some v | none => none
        if d.defaults = want then [] else ["default-value-not-as-described"]) ++
+    -- C++ member-declarator order: virt-specifiers (`override`, `final`) come before the pure-specifier / `= default`
+    (if ((d.tail.dropWhile (· ≠ L "=")).any (fun w => w = L "override" || w = L "final")) then
+       ["virt-specifier-after-the-initialiser"] else []) ++
     if initialised then (if defText.isEmpty then [] else ["definition-despite-initialisation"]) else
     match defLines.head? >>= readSig with
     | none => ["def-unreadable"]
